@@ -114,6 +114,7 @@ func (e *Engine) RunRoot(fn *ssa.Function) (err error) {
 	if fr.contract != nil {
 		e.checkDominated(s, fn, fr.contract)
 		e.checkWritesUnconditionally(s, fn, fr.contract)
+		e.checkReadsOnly(s, fn, fr.contract)
 		e.checkDeterministic(s, fn, fr.contract)
 		e.checkIfaceCallsOnly(s, fn, fr.contract)
 		e.checkDirectCallsOnly(s, fn, fr.contract)
